@@ -38,7 +38,8 @@ pub mod sync {
     pub use ::std::sync::*;
 
     use super::verif_yield;
-    use ::std::sync::{
+    // (`pub`: a private import of the same name would hide the glob re-export above)
+    pub use ::std::sync::{
         LockResult, MutexGuard, RwLockReadGuard, RwLockWriteGuard, TryLockError, TryLockResult,
     };
 
@@ -316,7 +317,7 @@ pub mod sync {
         pub use ::std::sync::atomic::*;
 
         use super::super::verif_yield;
-        use ::std::sync::atomic::Ordering;
+        pub use ::std::sync::atomic::Ordering;
 
         macro_rules! shadow_atomic_common {
             ($name:ident, $real:ty, $prim:ty) => {
